@@ -121,18 +121,20 @@ def stub_sphere_distance(ctx, o, wm, log):
 def cases_opd(tier):
     out = [dict(obj=o, wi=wi, sample='ray') for o in ('inf', 'finite') for wi in (0, 1)]
     out += [dict(obj='inf', wi=0, sample='chief'), dict(obj='finite', wi=1, sample='chief'), dict(obj='inf', wi=1, sample='ray', vig=True)]
+    # two wavelengths and two fields analysed in ONE call: the sample looked at is the last field / last wavelength
+    out += [dict(obj='inf', wi=0, sample='ray', multi=True), dict(obj='finite', wi=1, sample='ray', multi=True)]
     return out
 
 
 @harness('C09', 'H1_opd_definition', cases=cases_opd, funcs=FUNCS, stubs=STUBS + STUBS3,
-         bounds='2 fields x 2 wavelengths (primary and non-primary analysed), caller-supplied 1-point distribution with symbolic pupil '
+         bounds='2 fields x 2 wavelengths (primary and non-primary analysed; one field and wavelength per call, or both fields and both wavelengths in one call), caller-supplied 1-point distribution with symbolic pupil '
                 'coordinates, uninterpreted tracer, real paraxial exit pupil of a plane-surface lens; the sphere distance is the '
                 'uninterpreted function T decided in H1_sphere_distance',
          doc='reported OPD W = (chief path - ray path) / (wavelength in mm): paths are the traced optical path plus the start-point lead '
              '(H2) minus T(record, sphere), where the sphere handed to T is centred on the chief ray image point of the analysed field '
              'and wavelength with radius to the axial point of the paraxial exit pupil, and the records are those of the chief ray '
              'traced alone resp. of the sample; the sample with pupil coordinates (0,0) has OPD exactly 0')
-def h1_opd(ctx, obj, wi, sample, vig=False):
+def h1_opd(ctx, obj, wi, sample, vig=False, multi=False):
     from optiland import wavefront as wm
     o, nums = slab(ctx, obj, vig=vig)
     last = 3
@@ -144,10 +146,16 @@ def h1_opd(ctx, obj, wi, sample, vig=False):
     log = []
     restore = stub_sphere_distance(ctx, o, wm, log)
     try:
-        wf = wm.Wavefront(o, fields=[H], wavelengths=[w], distribution=TwoPoints(ctx, [p]))
+        if multi:
+            wf = wm.Wavefront(o, fields=[(0.0, 0.0), H], wavelengths=[nums['ws'][1 - wi], w], distribution=TwoPoints(ctx, [p]))
+        else:
+            wf = wm.Wavefront(o, fields=[H], wavelengths=[w], distribution=TwoPoints(ctx, [p]))
     finally:
         restore()
-    opd_waves, inten = wf.data[0][0]
+    opd_waves, inten = wf.data[-1][-1]
+    if multi:
+        ctx.oblige('sphere_distance_calls', len(log) == 8)
+        log = log[-2:]
     W = ctx.val(opd_waves)
     ctx.oblige('intensity_reported', ctx.eq(ctx.val(inten), val('intensity', last, H[0], H[1], p[0], p[1], w)))
     if sample == 'chief':
